@@ -594,6 +594,7 @@ class Interp:
         self.havoc_loop(st, s, spec, fr)
         view = self.loop_view(fr, None)
         self.assume_inv(st, spec, view)
+        watched = self._watch_lists(s, spec, fr)
         if self.truth(st, self.eval(st, s.test, fr)):
             d0 = spec.decreases(self.loop_view(fr, None)) if spec.decreases else None
             if d0 is not None:
@@ -601,9 +602,11 @@ class Interp:
             try:
                 self.exec_block(st, s.body, fr)
             except _Break:
+                self._check_watched(watched, name)
                 return
             except _Continue:
                 pass
+            self._check_watched(watched, name)
             v2 = self.loop_view(fr, None)
             self.check_inv(st, spec, v2, f"{name}/inv-preserve")
             if d0 is not None:
@@ -726,6 +729,29 @@ class Interp:
                 shp = spec.shapes.get(f"{on}.{an}") or (obj.shape.fields.get(an) if obj.shape else None) or S.shape_of(cur)
                 obj.fields[an] = shp.fresh(st, f"{on}.{an}")
 
+    def _watch_lists(self, s, spec, fr):
+        """Lists held in local variables that the loop is NOT declared to change (no assignment / mutating method
+        call in its body, not in `modifies`): a callee contract with `modifies_args` must not have replaced their
+        contents during the symbolic iteration.  Such a list is invisible to the syntactic loop analysis and would
+        keep its loop-entry value in the 'arbitrary iteration' state, which is unsound."""
+        names, _attrs, mutated = self.loop_targets(s)
+        declared = names | mutated | {m for m in spec.modifies if "." not in m}
+        out = {}
+        f = fr
+        while f is not None:
+            for k, v in f.locals.items():
+                if isinstance(v, LRef) and k not in declared and k not in out:
+                    out[k] = (v, v.seq)
+            f = f.parent
+        return out
+
+    @staticmethod
+    def _check_watched(watched, where):
+        by_callee = V.cur().ghost.get("lists_modified_by_callee", [])
+        for k, (ref, seq0) in watched.items():
+            if ref.seq is not seq0 and any(ref is m for m in by_callee):
+                raise Unsupported(f"loop {where} changes the list `{k}` which is not in its havoc set (add it to LoopSpec.modifies)")
+
     def s_For(self, st, s, fr):
         it = self.eval(st, s.iter, fr)
         it = st.force(it)
@@ -765,6 +791,7 @@ class Interp:
         st.assume(V._cmp(">=", i, 0))
         st.assume(V._cmp("<=", i, n))
         self.assume_inv(st, spec, self.loop_view(fr, i, seq, entry))
+        watched = self._watch_lists(s, spec, fr)
         if st.branch(V._cmp("<", i, n)):
             elem = Q.seq_get(seq, i)
             self.assign_target(st, s.target, elem, fr)
@@ -773,9 +800,11 @@ class Interp:
             try:
                 self.exec_block(st, s.body, fr)
             except _Break:
+                self._check_watched(watched, name)
                 return
             except _Continue:
                 pass
+            self._check_watched(watched, name)
             self.check_inv(st, spec, self.loop_view(fr, i + 1, seq, entry, mark), f"{name}/inv-preserve")
             raise PathEnd()
         self.exec_block(st, s.orelse, fr)
